@@ -533,3 +533,55 @@ Theorem parse_print : forall t, wf_tree t -> load (print t) = Some t.
 Proof.
   intros t [W1 [W2 [W3 W4]]]. apply load_print; auto. apply proper_inhabited. exact W1.
 Qed.
+
+(* ---------- branch lengths do not matter ---------- *)
+
+Lemma strip_len_leaves : forall t, leaves (strip_len t) = leaves t.
+Proof.
+  induction t as [n l|cs l IH] using tree_ind'; [reflexivity|]. cbn [strip_len leaves].
+  induction cs as [|c cs IHc]; [reflexivity|]. inversion IH as [|? ? Hc Hcs]; subst.
+  cbn [map flat_map]. rewrite Hc, IHc by exact Hcs. reflexivity.
+Qed.
+
+Lemma strip_len_leaves_map : forall cs, flat_map leaves (map strip_len cs) = flat_map leaves cs.
+Proof.
+  induction cs as [|c cs IH]; [reflexivity|]. cbn [map flat_map]. rewrite strip_len_leaves, IH. reflexivity.
+Qed.
+
+Lemma strip_len_clades : forall t, clades (strip_len t) = clades t.
+Proof.
+  induction t as [n l|cs l IH] using tree_ind'; [reflexivity|]. cbn [strip_len clades].
+  rewrite strip_len_leaves_map. f_equal.
+  induction cs as [|c cs IHc]; [reflexivity|]. inversion IH as [|? ? Hc Hcs]; subst.
+  cbn [map flat_map]. rewrite Hc, IHc by exact Hcs. reflexivity.
+Qed.
+
+Lemma strip_len_wf : forall t, wf_tree t -> wf_tree (strip_len t).
+Proof.
+  intros t [W1 [W2 [W3 W4]]]. unfold wf_tree. rewrite strip_len_leaves. repeat split; auto.
+  - clear W2 W3 W4. induction t as [n l|cs l IH] using tree_ind'; [reflexivity|].
+    apply proper_node in W1. destruct W1 as [Hl Hc]. cbn [strip_len proper]. rewrite map_length.
+    apply andb_true_iff. split; [apply Nat.leb_le; exact Hl|].
+    apply forallb_forall. intros x Hx. apply in_map_iff in Hx. destruct Hx as [c [<- Hin]].
+    rewrite Forall_forall in IH. apply IH; auto.
+  - clear W1 W3 W4. induction t as [n l|cs l IH] using tree_ind'.
+    + cbn [strip_len clean_tree clean_len] in *. apply andb_true_iff in W2. destruct W2 as [W2 _]. rewrite W2. reflexivity.
+    + apply clean_tree_node in W2. destruct W2 as [Hc _]. cbn [strip_len clean_tree clean_len]. rewrite andb_true_r.
+      apply forallb_forall. intros x Hx. apply in_map_iff in Hx. destruct Hx as [c [<- Hin]].
+      rewrite Forall_forall in IH. apply IH; auto.
+Qed.
+
+Lemma strip_len_biparts : forall R t, biparts R (strip_len t) = biparts R t.
+Proof. intros R t. unfold biparts. rewrite strip_len_clades. reflexivity. Qed.
+
+Theorem distances_ignore_lengths : forall a b, wf_tree a -> wf_tree b -> seteq (leaves a) (leaves b) ->
+  grf_both (print (strip_len a)) (print (strip_len b)) = grf_both (print a) (print b).
+Proof.
+  intros a b Wa Wb S.
+  rewrite (grf_both_spec (leaves a) a b Wa Wb S (wf_NoDup a Wa) (seteq_refl _)).
+  rewrite (grf_both_spec (leaves a) (strip_len a) (strip_len b) (strip_len_wf a Wa) (strip_len_wf b Wb)).
+  - unfold spec_both, spec_grf, spec_rf. rewrite !strip_len_biparts. reflexivity.
+  - rewrite !strip_len_leaves. exact S.
+  - apply wf_NoDup. exact Wa.
+  - rewrite strip_len_leaves. apply seteq_refl.
+Qed.
